@@ -298,3 +298,8 @@ Definition py_isinstance (t : pty) (c : pclass) : bool :=
 Inductive mtarget : Type := TgtC | TgtCpp | TgtPy.
 Inductive mkey : Type := KExtentBytes | KBufferBytes | KCap | KUnionCount | KPortId | KFullName.
 Record export : Type := { ex_tgt : mtarget; ex_key : mkey; ex_exp : mexp }.
+
+(* a decimal floating constant rounds to a finite double iff its magnitude is below 2^1024 - 2^970 (half an ulp above DBL_MAX);
+   beyond that gcc diagnoses "floating constant exceeds range of 'double'" and clang evaluates the constant to infinity *)
+Definition dbl_lit_limit : Z := 2 ^ 1024 - 2 ^ 970.
+Definition float_lit_overflows (n d : Z) : bool := (dbl_lit_limit <=? Z.abs n) || (dbl_lit_limit <=? Z.abs d).
